@@ -2318,7 +2318,7 @@ class Polynom(Obj):
             return bl_diag
         return Expr(bl_diag, **self.assumptions)
 
-    def diagonalize_fock(self, target=None):
+    def diagonalize_fock(self, target=None, return_sympy: bool = False):
         raise NotImplementedError("Fock matrix diagonalization not implemented"
                                   f" for polynoms: {self}")
 
